@@ -225,6 +225,8 @@ func (app *App) checkHAReplicasRunning(local *mysql.Node) (replicasRunning bool,
 }
 
 func (app *App) stateFirstRun() appState {
+	// does not need a connection: must be ready even if we enter maintenance state first
+	app.initializeOptimizationModule()
 	if !app.dcs.WaitConnected(app.config.DcsWaitTimeout) {
 		if app.doesMaintenanceFileExist() {
 			return stateMaintenance
@@ -232,7 +234,6 @@ func (app *App) stateFirstRun() appState {
 		return stateFirstRun
 	}
 	app.dcs.Initialize()
-	app.initializeOptimizationModule()
 	if app.AcquireLock(pathManagerLock) {
 		return stateManager
 	}
